@@ -36,6 +36,7 @@ type C12Scenario struct {
 	Readers []C12Reader  `json:"readers"`
 	Writers [][]C12Chunk `json:"writers"`
 	Tape    []int        `json:"tape"`
+	DSYield bool         `json:"ds_yield,omitempty"` // datastore accesses are yield points too
 }
 
 func genC12(t *rapid.T) C12Scenario {
@@ -68,6 +69,7 @@ func genC12(t *rapid.T) C12Scenario {
 		s.Writers = append(s.Writers, w)
 	}
 	s.Tape = rapid.SliceOfN(rapid.IntRange(0, 7), 0, 150).Draw(t, "tape")
+	s.DSYield = rapid.Bool().Draw(t, "dsyield")
 	return s
 }
 
@@ -114,6 +116,10 @@ func runC12(t *testing.T, s C12Scenario) (res Result) {
 		sc := sched.New()
 		store.VerifSetYield(sc.Yield)
 		defer store.VerifSetYield(nil)
+		if s.DSYield {
+			e.mem.Yield = sc.Yield
+			defer func() { e.mem.Yield = nil }()
+		}
 
 		obs := make([]c12ReaderObs, len(s.Readers))
 		rctx := make([]context.Context, len(s.Readers))
